@@ -9,6 +9,7 @@ CONSTANTS
   TrackDist = FALSE
   TrackOperand = FALSE
   AdoptLists = FALSE
+  BookkeepFirst = FALSE
   CacheChecksCount = TRUE
 INVARIANT GraphAgrees
 CHECK_DEADLOCK FALSE
